@@ -385,7 +385,8 @@ def main(tier: str) -> int:
         "binary64 arithmetic is executed (PrimFloat in vm_compute), never reasoned about: theorems about SI values are over an "
         "abstract number structure; the law x*1 = x they use is proved for exact rationals and only validated (bit-exact "
         "correspondence) for floats",
-        "Python operator dispatch (reflected methods, subclass priority) is transcribed by hand in Units/Dispatch.v",
+        "Python operator dispatch (reflected methods, subclass priority) is transcribed by hand in Units/Dispatch.v "
+        "(and mirrored in coq/Units/GenAgree.v: gen_left_method / gen_reflected)",
     ])
     run.cov["translator"] = dump["_log"]
     phase["build_and_recheck_props"] = round(_t.time() - _t0, 1)
@@ -510,6 +511,26 @@ def main(tier: str) -> int:
                       f"by the observed outcome ({len(unexplained)} cases)",
                       {"call": cs["spec"], "operands": cs["ops"], "observed": cs["out"], "relation": "Units.Dispatch.case_ok",
                        "other_cases": [cases[i]["spec"] for i in unexplained[1:6]]}, found_input=False)
+    # ---- the tie to the source text broke and the clause oracle saw nothing yet: search harder for a failing input
+    tie = tree.broken(PID)
+    searched = 0
+    if tie and not fails:
+        rng2 = random.Random(run.seed * 7919 + 1616)
+        found = None
+        for spec in gen_cases(ctx, rng2, tier):
+            out, ops, _raw = UU.run_call(ctx, spec)
+            searched += 1
+            bad = oracle(ctx, spec, out, ops)
+            if bad:
+                found = ({"spec": spec, "out": out, "ops": ops}, bad)
+                break
+        if found:
+            cs, bad = found
+            run.violation(bad[0], bad[1], {"call": cs["spec"], "operands": cs["ops"], "observed": cs["out"],
+                                           "how": "build the operands with pydsol.core.units (cls(value, unit) / SI(value, text)) and apply the operator"})
+    run.cov["extra_cases_searched_with_oracle_only"] = searched
+    if tie and not run.violations:
+        UU.report_broken_tie(run, tree, {"model_impl_mismatching_cases": len(mism), "cases_searched": len(cases) + searched})
     if not proofs_ok and not run.violations:
         run.violation("proof-broken", "a C16 proof obligation no longer checks: " + getattr(run, "proof_log", "")[-800:],
                       {"theorems": run.cov.get("theorems")}, found_input=False)
